@@ -21,6 +21,33 @@ CHECKS = {
         design="DESIGN.md 7 (C15)"),
 }
 
+SOLVE_NOTE = ("trusts the projection, the exact-decimal transcription of floats and the two tolerance classes (DESIGN.md 5); "
+              "decided for the generated input classes (<= 12 components, |V| in [0.5, 1000], loads >= 1 uA), not to the last bit")
+
+
+def _solve(text, design):
+    return dict(technique="trace validation by TLC: every recorded solve()/rail_rep() table is checked against the TLA+ relations of Elec.tla / TraceSolve.tla; structures come from TLC simulation of the construction model",
+                text=text, note=SOLVE_NOTE, design=design)
+
+
+CHECKS.update({
+    "C01": _solve("Every component row of every recorded solve() table (numeric instantiations of TLC-generated power trees: all 11 kinds, constant/1-D/2-D parameters, both polarities, "
+                  "1-3 sources, mux, phases) must satisfy the neighbour links (Vin = Vout of the supplier, Iout = sum of the children it supplies) and the documented transfer law of its kind, "
+                  "stated division-free over exact decimals in Elec.tla.", "DESIGN.md 7 (C01)"),
+    "C02": _solve("Per row: Power/Loss accounting, loss range, efficiency formula and range, load booked as Power xor Loss, Power - Loss = |Vout| x Iout, thermal rise and peak; per phase: "
+                  "source power = load power + losses. All as TLA+ clauses evaluated by TLC on recorded tables with ta in {-40,0,25,85}.", "DESIGN.md 7 (C02)"),
+    "C04": _solve("The discrete skeleton (OutLive/InLive, derived from the abstract state alone) predicts which rows must be exactly zero and which components sleep; TLC checks every recorded row "
+                  "of systems with 0 V / phase-inactive sources, inactive converters/regulators/switches/muxes and muxes without live input.", "DESIGN.md 7 (C04)"),
+    "C05": _solve("For every recorded mux row: input voltage = output of the first live input, output law with the on-resistance of that input, input current law, only the selected input is "
+                  "charged with the mux current, Parent / Rail in / Domain name the selected input, all-dead mux is dead.", "DESIGN.md 7 (C05)"),
+    "C06": _solve("Per-phase behaviour is part of the laws (phase value, sleep value, active list, no configuration); every phase of every recorded table is validated with that phase's "
+                  "behaviour, solve(phase=p) must equal the p-rows of the all-phase table, an unknown phase must raise ValueError.", "DESIGN.md 7 (C06)"),
+    "C07": _solve("Domain of every row = root of its supply chain (through the selected mux input); Subsystem, System total, System average and 24 h energy cells are recomputed by TLC from "
+                  "the component rows (cross-multiplied, exact class).", "DESIGN.md 7 (C07)"),
+    "C08": _solve("rail_rep() and solve() are recorded from the same state; TLC relates them: per phase a row for every rail that feeds a component, voltage of the owner, sums over exactly "
+                  "the fed components (mux counted under its selected input), union of warnings; without rails both tables are identical.", "DESIGN.md 7 (C08)"),
+})
+
 NOT_BUILT = "check not built yet in this round (framework under construction; see DESIGN.md section 13)"
 
 
